@@ -153,9 +153,9 @@ def audit(pid, modules):
   p = subprocess.run(["lake", "env", "lean", path], cwd=LEAN, capture_output=True, text=True, timeout=1800)
   out = p.stdout + p.stderr
   res = {}
-  for m in re.finditer(r"'([^']+)' depends on axioms: \[([^\]]*)\]", out):
+  for m in re.finditer(r"'(\S+)' depends on axioms: \[([^\]]*)\]", out):
     res[m.group(1)] = [a.strip() for a in m.group(2).replace("\n", " ").split(",") if a.strip()]
-  for m in re.finditer(r"'([^']+)' does not depend on any axioms", out):
+  for m in re.finditer(r"'(\S+)' does not depend on any axioms", out):
     res[m.group(1)] = []
   return thms, res, out, p.returncode
 
